@@ -231,7 +231,8 @@ class CFG:
             return expr.operand.id, False
         return None
 
-    def reach(self, src, avoid=(), flags=True, include_src=False, follow_exc=True):
+    def reach(self, src, avoid=(), flags=True, include_src=False, follow_exc=True,
+              edge_ok=None):
         """Node ids reachable from node id `src` (src itself only if on a cycle or
         include_src) without entering a node in `avoid`; flag-sensitive."""
         avoid = set(avoid)
@@ -256,6 +257,8 @@ class CFG:
             for s, lab in n.succ:
                 if lab == 'exc' and not follow_exc:
                     continue
+                if edge_ok is not None and not edge_ok(n, lab):
+                    continue
                 if fl and n.kind == 'test' and lab in (True, False):
                     ft = self._flag_test(n.expr)
                     if ft and ft[0] in fl:
@@ -271,12 +274,12 @@ class CFG:
                     dq.append(key)
         return out
 
-    def can_reach(self, src, dst, avoid=(), flags=True):
-        return dst in self.reach(src, avoid, flags)
+    def can_reach(self, src, dst, avoid=(), flags=True, edge_ok=None):
+        return dst in self.reach(src, avoid, flags, edge_ok=edge_ok)
 
-    def must_pass(self, src, dst, through, flags=True):
+    def must_pass(self, src, dst, through, flags=True, edge_ok=None):
         """Every path from src to dst enters a node of `through` (strictly after src)."""
-        return dst not in self.reach(src, avoid=through, flags=flags)
+        return dst not in self.reach(src, avoid=through, flags=flags, edge_ok=edge_ok)
 
     def paths_exist_avoiding(self, src, dsts, through, flags=True):
         r = self.reach(src, avoid=through, flags=flags)
@@ -492,3 +495,131 @@ def cfg_of(func):
         c = CFG(func.node)
         _CFGS[key] = c
     return c
+
+
+# ---------------------------------------------------------------------------
+# bounded path enumeration with consistent predicates
+# ---------------------------------------------------------------------------
+
+def _none_test(expr):
+    """(subject text, value) if expr is `X is None` / `X is not None` / `not (...)`,
+    value = truth of "X is None" on the True branch."""
+    neg = False
+    e = expr
+    while isinstance(e, ast.UnaryOp) and isinstance(e.op, ast.Not):
+        neg = not neg
+        e = e.operand
+    if isinstance(e, ast.Compare) and len(e.ops) == 1 and \
+            isinstance(e.comparators[0], ast.Constant) and e.comparators[0].value is None and \
+            isinstance(e.ops[0], (ast.Is, ast.IsNot)):
+        try:
+            subj = ast.unparse(e.left)
+        except Exception:   # pragma: no cover
+            return None
+        is_none_on_true = isinstance(e.ops[0], ast.Is)
+        if neg:
+            is_none_on_true = not is_none_on_true
+        return subj, is_none_on_true
+    return None
+
+
+def _assigned_subjects(node):
+    """Texts of the targets (re)bound by a simple statement node."""
+    out = set()
+    a = node.ast
+    if node.kind != 'stmt':
+        return out
+    tg = []
+    if isinstance(a, ast.Assign):
+        tg = a.targets
+    elif isinstance(a, (ast.AugAssign, ast.AnnAssign)):
+        tg = [a.target]
+    for t in tg:
+        for tt in (t.elts if isinstance(t, (ast.Tuple, ast.List)) else [t]):
+            try:
+                out.add(ast.unparse(tt))
+            except Exception:   # pragma: no cover
+                pass
+    return out
+
+
+class PathLimit(Exception):
+    pass
+
+
+def enumerate_paths(cfg, start=None, max_loop=1, limit=100000, follow_exc=False,
+                    stop_at=None):
+    """Yield (path, preds, end) for every path from `start` (default entry) to the
+    normal exit, the raise exit or a node in `stop_at`: path = list of node ids; each loop
+    header is entered at most `max_loop` times per activation; boolean-constant flags and
+    `X is None` tests are kept consistent along a path.  preds maps subject -> bool
+    ("is None") / flag -> bool as decided on this path."""
+    flags = cfg._flag_vars()
+    start = cfg.entry.id if start is None else start
+    stop_at = set(stop_at or ())
+    count = [0]
+    out = []
+
+    def rec(nid, path, preds, loops):
+        n = cfg.nodes[nid]
+        path = path + [nid]
+        if nid in (cfg.exit.id, cfg.raise_exit.id) or (nid in stop_at and len(path) > 1):
+            count[0] += 1
+            if count[0] > limit:
+                raise PathLimit()
+            out.append((path, dict(preds), nid))
+            return
+        # effects of the node on predicates
+        p2 = preds
+        asg = _assigned_subjects(n)
+        if asg:
+            p2 = {k: v for k, v in preds.items() if k not in asg}
+            if n.kind == 'stmt' and isinstance(n.ast, ast.Assign) and \
+                    len(n.ast.targets) == 1 and isinstance(n.ast.targets[0], ast.Name) and \
+                    n.ast.targets[0].id in flags and isinstance(n.ast.value, ast.Constant):
+                p2 = dict(p2)
+                p2[n.ast.targets[0].id] = bool(n.ast.value.value)
+        for s, lab in n.succ:
+            if lab == 'exc' and not follow_exc:
+                continue
+            p3 = p2
+            if n.kind == 'test' and lab in (True, False):
+                ft = CFG._flag_test(n.expr)
+                if ft and ft[0] in flags:
+                    cur = p2.get(ft[0])
+                    if cur is not None and (cur == ft[1]) != lab:
+                        continue
+                nt = _none_test(n.expr)
+                if nt:
+                    subj, none_on_true = nt
+                    val = none_on_true if lab else (not none_on_true)
+                    cur = p2.get(subj + ' is None')
+                    if cur is not None and cur != val:
+                        continue
+                    p3 = dict(p2)
+                    p3[subj + ' is None'] = val
+            l2 = loops
+            if cfg.nodes[s].kind in ('for', 'test') and isinstance(
+                    cfg.nodes[s].ast, (ast.For, ast.While)) and s in path:
+                # re-entering a loop header
+                c = loops.get(s, 0)
+                if c >= max_loop:
+                    # may only leave the loop now: handled when the header is visited
+                    pass
+            if n.kind in ('for', 'test') and isinstance(n.ast, (ast.For, ast.While)) and \
+                    lab is True:
+                c = loops.get(nid, 0)
+                if c >= max_loop:
+                    continue
+                l2 = dict(loops)
+                l2[nid] = c + 1
+            rec(s, path, p3, l2)
+
+    import sys
+    old = sys.getrecursionlimit()
+    sys.setrecursionlimit(max(old, 10000))
+    try:
+        rec(start, [], {}, {})
+    finally:
+        sys.setrecursionlimit(old)
+    return out
